@@ -123,3 +123,41 @@ _add(
     technique=('deterministic simulation: seeded DAGs, recorded invocation '
                'history checked against a direct-evaluation reference, replay'),
 )
+
+_add(
+    'C19', machine='threads', level='exploration',
+    tiers={'quick': {'count': 9000, 'budget_s': 45},
+           'thorough': {'count': 500000, 'budget_s': 840}},
+    rule=('2-3 real threads released one at a time by a baton scheduler; '
+          'pre-emption at every source line of fiddle/_src function frames and '
+          'at explicit pause points inside slow stub callables; policies: '
+          'random walk (p in .02/.1/.3), PCT (d<=3), run-to-pause; each thread '
+          'runs <= 12 ops (construct = first signature lookup of a shared '
+          'callable, edits in/outside suspend_tracking, build with slow / '
+          'failing / nested-building callable, deepcopy, ==, JSON round trip, '
+          'history read) on its own configs; non-trivial = >= 1 context switch; '
+          'distinct = distinct (programs, interleaving digest)'),
+    real_vs_stub=REAL + ('real threads, real threading.local; stub: configured '
+                         'callables, the scheduler (sys.settrace baton), '
+                         'per-thread exception classes sharing one __name__'),
+    assumptions=['races live at line boundaries of fiddle frames (C-level '
+                 'calls such as next(itertools.count()) are atomic under the '
+                 'GIL); opcode-level pre-emption is unavailable: CPython '
+                 '3.12.1 segfaults with f_trace_opcodes while threads are '
+                 'parked in trace callbacks',
+                 'history.custom_location is documented as temporary global '
+                 'state and is not driven'],
+    required_probes=['explicit_pause_points'],
+    level_text=('seeded search over line-level interleavings of real threads; '
+                'each thread\'s canonical observation log must equal the log '
+                'of the same program run alone, plus global invariants on '
+                'sequence ids, the tracking flag and the exception-class '
+                'cache; a failing interleaving is minimised to a scripted turn '
+                'list that replays without any PRNG'),
+    design_ref='DESIGN.md 3 (C19), 2.2',
+    level_note=('trusted: CPython settrace semantics, canon; bounds: <= 3 '
+                'threads, <= 12 ops each, 2M steps per run'),
+    technique=('deterministic simulation: baton scheduler over real threads '
+               'with sys.settrace line pre-emption, seeded schedule search, '
+               'alone-run reference, scripted replay'),
+)
